@@ -13,9 +13,10 @@
   Oddities kept as they are:
   * `check_for_exception` overwrites `iIndex` with the position of the word in `case_exceptions`:
     the action's "index" is then that position, not the token position;
-  * `check_for_prefix_and_suffix_exceptions` looks the suffix up a second time in what is left
-    after removing the prefix: `get_matched_suffix` returns None when prefix and suffix overlap
-    and `len(None)` raises TypeError;
+  * (repaired in /repo, WP5b) `check_for_prefix_and_suffix_exceptions` used to detect the suffix on the
+    whole name but look it up in what is left after removing the prefix: `get_matched_suffix`
+    returned None when prefix and suffix overlap and `len(None)` raised TypeError; the suffix is
+    detected on the remainder now;
   * `extract_suffix` / `remove_suffix` slice with `len(s) - len(suffix)`, which Python reads from
     the END of the string when it is negative;
   * `check_for_upper_or_lower_case` records the value None; `token_case._fix_violation` then does
@@ -165,36 +166,25 @@ def checkForSuffixException (p : Params) (v : Str) (idx : Int) (f : Checker) : E
       .ok (f v [] c ds idx)
   else .ok (f v [] v [] idx)
 
-/-- `check_for_prefix_and_suffix_exceptions` (the unused local `sExpected` is not transcribed) -/
+/-- `check_for_prefix_and_suffix_exceptions` (repaired: the prefix is split off first, the suffix is
+    DETECTED on what is left of the name — the string it is then looked up in and taken from; the
+    former `.error .typeError` of an overlapping prefix and suffix is gone) -/
 def checkForPrefixAndSuffixExceptions (p : Params) (v : Str) (idx : Int) (f : Checker) :
     Except PyErr (Option Action) :=
-  if prefixDetected E v p.prefixes && suffixDetected E v p.suffixes then
-    match getMatchedPrefix E v p.prefixes with
-    | none => .error .typeError
-    | some dp =>
-      let ap := extractPrefix v dp
-      let c := removePrefix v ap
+  let pre : Except PyErr (Str × Str) :=
+    if prefixDetected E v p.prefixes then
+      match getMatchedPrefix E v p.prefixes with
+      | none => .error .typeError
+      | some dp => .ok (dp, removePrefix v (extractPrefix v dp))
+    else .ok ([], v)
+  match pre with
+  | .error e => .error e
+  | .ok (dp, c) =>
+    if suffixDetected E c p.suffixes then
       match getMatchedSuffix E c p.suffixes with
-      | none => .error .typeError          -- reachable: prefix and suffix overlap in `v`
-      | some ds =>
-        let as := extractSuffix c ds
-        let c2 := removeSuffix c as
-        .ok (f v dp c2 ds idx)
-  else if prefixDetected E v p.prefixes then
-    match getMatchedPrefix E v p.prefixes with
-    | none => .error .typeError
-    | some dp =>
-      let ap := extractPrefix v dp
-      let c := removePrefix v ap
-      .ok (f v dp c [] idx)
-  else if suffixDetected E v p.suffixes then
-    match getMatchedSuffix E v p.suffixes with
-    | none => .error .typeError
-    | some ds =>
-      let as := extractSuffix v ds
-      let c := removeSuffix v as
-      .ok (f v [] c ds idx)
-  else .ok (f v [] v [] idx)
+      | none => .error .typeError
+      | some ds => .ok (f v dp (removeSuffix c (extractSuffix c ds)) ds idx)
+    else .ok (f v dp c [] idx)
 
 /-- `check_for_exception`: `self.case_exceptions_lower` is `lowercase_list(self.case_exceptions)`
     (recomputed by `_get_tokens_of_interest` before every analysis); `list.index` raises ValueError.
